@@ -16,6 +16,12 @@ type EncodeOpts struct {
 	T        *simhook.Tape // nil: canonical order, nothing drawn
 	Shuffle  bool          // interleave records of different fields
 	Unknowns bool          // splice additional unknown records at every level
+	// DupMapKeys: some map entries are preceded by an entry with the same key
+	// and a default value (the later one wins, so the decoded value is the same).
+	DupMapKeys bool
+	// KeyOnlyEntries: some entries of message-valued maps are preceded by an
+	// entry that carries the key but no value field.
+	KeyOnlyEntries bool
 }
 
 func wireType(k protoreflect.Kind) protowire.Type {
@@ -93,11 +99,54 @@ func (o *EncodeOpts) Encode(m protoreflect.Message) []byte {
 				e = protowire.AppendTag(e, 2, wireType(fd.MapValue().Kind()))
 				e = o.appendScalar(e, fd.MapValue(), mp.Get(k))
 				var r []byte
+				if o.T != nil && o.DupMapKeys && o.T.Chance("dupkey", 1, 3) {
+					// same key first with a default value (or, for message values, no value at all)
+					var d []byte
+					d = protowire.AppendTag(d, 1, wireType(fd.MapKey().Kind()))
+					d = o.appendScalar(d, fd.MapKey(), k.Value())
+					if !(o.KeyOnlyEntries && fd.MapValue().Kind() == protoreflect.MessageKind && o.T.Chance("keyonly", 1, 2)) {
+						d = protowire.AppendTag(d, 2, wireType(fd.MapValue().Kind()))
+						if fd.MapValue().Kind() == protoreflect.MessageKind {
+							d = protowire.AppendBytes(d, nil)
+						} else {
+							d = o.appendScalar(d, fd.MapValue(), fd.MapValue().Default())
+						}
+					}
+					r = protowire.AppendTag(r, fd.Number(), protowire.BytesType)
+					r = protowire.AppendBytes(r, d)
+				}
 				r = protowire.AppendTag(r, fd.Number(), protowire.BytesType)
 				r = protowire.AppendBytes(r, e)
 				recs = append(recs, r)
 			}
-			// map entries of one field may arrive in any order: each is its own group
+			if o.T != nil && o.KeyOnlyEntries && fd.MapValue().Kind() == protoreflect.MessageKind && o.T.Chance("keyonly-extra", 1, 3) {
+				// an entry for a key of its own that carries no value field at all
+				var kv protoreflect.Value
+				switch fd.MapKey().Kind() {
+				case protoreflect.StringKind:
+					kv = protoreflect.ValueOfString("\x02key-only")
+				case protoreflect.BoolKind:
+					kv = protoreflect.ValueOfBool(true)
+				case protoreflect.Int32Kind, protoreflect.Sint32Kind, protoreflect.Sfixed32Kind:
+					kv = protoreflect.ValueOfInt32(-424242)
+				case protoreflect.Int64Kind, protoreflect.Sint64Kind, protoreflect.Sfixed64Kind:
+					kv = protoreflect.ValueOfInt64(-424242)
+				case protoreflect.Uint32Kind, protoreflect.Fixed32Kind:
+					kv = protoreflect.ValueOfUint32(424242)
+				default:
+					kv = protoreflect.ValueOfUint64(424242)
+				}
+				if !mp.Has(kv.MapKey()) {
+					var d, r []byte
+					d = protowire.AppendTag(d, 1, wireType(fd.MapKey().Kind()))
+					d = o.appendScalar(d, fd.MapKey(), kv)
+					r = protowire.AppendTag(r, fd.Number(), protowire.BytesType)
+					r = protowire.AppendBytes(r, d)
+					recs = append(recs, r)
+				}
+			}
+			// map entries of one field may arrive in any order: each is its own
+			// group (a duplicate-key pair stays together, in order)
 			if o.T != nil && o.Shuffle {
 				for _, r := range recs {
 					groups = append(groups, [][]byte{r})
